@@ -10,6 +10,7 @@ import re
 from verif.core.runner import HarnessError
 from verif.gen import c03_docs as gen
 from verif.oracles import c03_replicate as model
+from verif.oracles import c03_known_model as known_model
 
 PROPERTY = 'C03'
 LEVEL = 'exploration'
@@ -104,7 +105,8 @@ def observe_flowir_nodes(case, doc, manifest):
             nodes[(stage, name + ' (duplicate id)')] = {'replica': replica, 'refs': refs, 'args': []}
         else:
             nodes[(stage, name)] = {'replica': replica, 'refs': refs, 'args': parse_args(args, stage, directs)}
-        raw['stage%d.%s' % (stage, name)] = {'references': list(c.get('references', [])), 'arguments': args}
+        raw['stage%d.%s' % (stage, name)] = {'references': list(c.get('references', [])), 'arguments': args,
+                                             'arguments_unresolved': str(c.get('command', {}).get('arguments', ''))}
     return {'nodes': nodes, 'edges': None}, raw
 
 
@@ -335,10 +337,24 @@ def run_case(col, case):
         return
     # ---- a failure: classify its shape
     kinds = explained_by_known_shape(case, expected, diffs) if diffs else None
+    matches_model = None
+    if kinds:
+        # the accepted known findings are the corruptions the rewriting produces TODAY: the raw expansion must equal,
+        # string for string, what the model of today's textual rewriting predicts; any other corruption is new
+        raw_l2 = raw if level == 'rejected' else observe_flowir_nodes(case, doc, manifest)[1]
+        try:
+            predicted = known_model.predict(case, doc, rep)
+        except Exception as e:
+            predicted = {'model-error': repr(e)}
+        seen = dict((k, {'references': v.get('references'), 'arguments': v.get('arguments_unresolved')})
+                    for k, v in (raw_l2 or {}).items() if isinstance(v, dict))
+        matches_model = (predicted == seen)
     aspects = '+'.join(sorted(set(d[0] for d in diffs))) if diffs else ('replicate-raised' if diffs is None else 'expansion-as-expected')
     outcome_level = 'rejected-valid-workflow' if level == 'rejected' else 'wrong-graph'
-    if kinds:
+    if kinds and matches_model:
         sig = 'textual-rewrite:%s:%s' % ('+'.join(kinds), outcome_level)
+    elif kinds:
+        sig = 'textual-rewrite-not-as-known:%s:%s' % ('+'.join(kinds), outcome_level)
     else:
         sig = '%s:%s' % (outcome_level, aspects)
     first = diffs[0] if diffs else None
@@ -346,10 +362,10 @@ def run_case(col, case):
     if first:
         why += '; first discrepancy: %s at %s: %s' % (first[0], first[1], canon_short(first[2]))
     col.outcome('FAIL:%s' % sig)
-    if kinds:
+    if kinds and matches_model:
         col.count('failing_cases_%s' % '+'.join(kinds).replace('-', '_').replace('+', '_and_'))
     col.fail(dict(case), why, {'level': level, 'error': err, 'diffs': _jsonable(diffs), 'raw': raw,
-                               'explained_by': kinds}, sig=sig)
+                               'explained_by': kinds, 'equals_known_rewriting_model': matches_model}, sig=sig)
 
 
 def canon_short(x):
@@ -490,6 +506,8 @@ def _selector(kind):
         if not m or m.group(1) != kind:
             return False
         if (f.get('observed') or {}).get('explained_by') != [kind]:
+            return False
+        if (f.get('observed') or {}).get('equals_known_rewriting_model') is not True:
             return False
         return kind in _case_kinds(f['case'])
     return sel
